@@ -347,7 +347,7 @@ def rule_results_all_added(ctx, rep, rule_id="R-RESULTS-ALL-ADDED"):
                     cond += [txt for _pol, txt in st if not txt.startswith(("EV:", "ITER:", "MATCH:")) and any(re.search(rf"(?<![A-Za-z0-9_]){re.escape(v)}(?![A-Za-z0-9_])", txt) for v in elem)]
                 rep.check(rule_id, m.qname, m.loc(a), not cond, "every-result-added",
                           f"add_result is reached only under `{cond[0][:60]}`: results of the file that do not satisfy it never reach any codemod" if cond else "")
-    if n < 3:
+    if n < 2:  # three readers today; two of them may legitimately share one loop in a common base class
         raise AnalysisError(f"only {n} result-list loops with add_result found in the SARIF / DefectDojo readers")
 
 
@@ -490,7 +490,8 @@ def rule_add_all_locations(ctx, rep):
         iter_ok = last_attr(lp.iter) == "locations"
         early = any(isinstance(x, (ast.Break, ast.Return, ast.Continue)) for x in ast.walk(lp))
         txt = unparse(lp)
-        keyed = "rule_id" in txt and ".file" in txt and ("append" in txt or "extend" in txt)
+        # the per-rule container may be looked up once before the loop (`by_file = self.setdefault(result.rule_id, {})`)
+        keyed = "rule_id" in unparse(fn.node) and ".file" in txt and ("append" in txt or "extend" in txt)
         ok = iter_ok and not early and keyed
     rep.check("R-ADD-ALL-LOCATIONS", fn.qname, fn.loc(), ok, "loop", "add_result does not file the result under every (rule_id, location.file)")
 
